@@ -244,7 +244,7 @@ def coq_eval(requires: list[str], exprs: list[str], prelude: str = '', timeout: 
         f.write(prelude + '\n')
         for n, e in enumerate(exprs):
             f.write(f'Definition case_{n} := {e}.\nEval vm_compute in case_{n}.\n')
-    cmd = f'ulimit -s unlimited 2>/dev/null; exec coqc -Q {COQ_DIR} EV -o {d}/cases.vo {path}'
+    cmd = f'ulimit -s unlimited 2>/dev/null; exec coqc -noglob -Q {COQ_DIR} EV -o {d}/cases.vo {path}'
     try:
         r = subprocess.run(['bash', '-c', cmd], capture_output=True, text=True, timeout=timeout)
     except subprocess.TimeoutExpired:
